@@ -191,8 +191,12 @@ class Message:
         # header (`type_factory`, what `from_bytes` dispatches on): this finds
         # the answer class also for commands whose classes are not named
         # <X>, <X>Request and <X>Answer
+        # (asked only when the names led nowhere: a hierarchy that follows the
+        # naming scheme - also one derived from the library's own classes -
+        # keeps the answer class its names point to)
         factory = getattr(self.__class__, "type_factory", None)
-        if self.header.is_request and callable(factory):
+        if (return_type is Message or return_type is self.__class__) and \
+                self.header.is_request and callable(factory):
             try:
                 as_request = factory(self.header)
                 as_answer = factory(hdr)
